@@ -117,6 +117,15 @@ func c10Scenarios() []c10Scenario {
 				Op{K: "ack", Refs: []Ref{{N: 0, Sub: "a"}}}, Op{K: "snapshot", Sub: "a", Snap: "n0"}, Op{K: "pull", Sub: "o", Max: 1}, Op{K: "advance", D: Ms}),
 			Waiters: []c10Waiter{{Sub: "o", Max: 10}},
 			Writers: []c10Writer{{Op: Op{K: "seek_snap", Sub: "o", Snap: "n0"}, Adds: map[string]int{"o": 1}}}},
+		// the predecessor is acknowledged only through the snapshot's list of acknowledged messages
+		// (an older message is still unacknowledged in the snapshot, so the time threshold acknowledges nothing)
+		{Name: "seek-snapshot-acks-ordered-predecessor-by-id", Subs: []string{"o"},
+			Setup: with(Op{K: "create_sub", Sub: "o", Cfg: cfg(SubCfg{Topic: "t", Ordered: true})},
+				Op{K: "publish", Topic: "t", Msgs: []MsgSpec{m(2, "")}}, Op{K: "advance", D: Ms},
+				Op{K: "publish", Topic: "t", Msgs: []MsgSpec{m(0, "k"), m(1, "k")}}, Op{K: "advance", D: Ms}, Op{K: "pull", Sub: "a", Max: 10},
+				Op{K: "ack", Refs: []Ref{{N: 0, Sub: "a"}}}, Op{K: "snapshot", Sub: "a", Snap: "n0"}, Op{K: "pull", Sub: "o", Max: 5}, Op{K: "advance", D: Ms}),
+			Waiters: []c10Waiter{{Sub: "o", Max: 10}},
+			Writers: []c10Writer{{Op: Op{K: "seek_snap", Sub: "o", Snap: "n0"}, Adds: map[string]int{"o": 1}}}},
 		{Name: "seek-time-acks-ordered-predecessor", Subs: []string{"o"},
 			Setup: with(Op{K: "create_sub", Sub: "o", Cfg: cfg(SubCfg{Topic: "t", Ordered: true})}, Op{K: "advance", D: 5 * Sec},
 				Op{K: "publish", Topic: "t", Msgs: []MsgSpec{m(0, "k")}}, Op{K: "advance", D: 5 * Sec}, Op{K: "publish", Topic: "t", Msgs: []MsgSpec{m(1, "k")}},
